@@ -42,15 +42,15 @@ Section Top.
     pose proof (reach_init d) as Hr. pose proof (reach_ok _ _ Hr) as [A B].
     assert (Hoff : offset (sp_pos (adv (save0 d))) = 0) by (rewrite adv_off; reflexivity).
     assert (Hrune : rune_at c 0 = (sp_rn (adv (save0 d)), sp_w (adv (save0 d)))).
-    { unfold rune_at. fold d. rewrite B. f_equal. rewrite A, Hoff. reflexivity. }
+    { unfold rune_at; cbn [rd rData rU rO rG rE]. fold d. rewrite B. f_equal. rewrite A, Hoff. reflexivity. }
     assert (Hpos : sp_pos (adv (save0 d)) = pos_of d 0).
     { pose proof (reach_pos_of d _ Hr) as Hp. rewrite Hoff in Hp. exact Hp. }
-    unfold land. rewrite Hrune. unfold read. cbn [pt init_state].
+    unfold land; cbn [rd rData rU rO rG rE]. rewrite Hrune. unfold read. cbn [pt init_state].
     fold d.
     destruct (Z.eqb (sp_rn (adv (save0 d))) RuneError && Nat.eqb (sp_w (adv (save0 d))) 1); cbn [andb];
       [destruct (o_allowinvalid (cO c)); cbn [negb]|].
     all: constructor; cbn; auto; try (eexists; reflexivity); try constructor.
-    unfold ref_perr, err_prefix, ref_prefix. cbn. rewrite Hpos. reflexivity.
+    unfold ref_perr, err_prefix, ref_prefix; cbn [rd rData rU rO rG rE]. cbn. rewrite Hpos. reflexivity.
   Qed.
 
   Lemma errs_init_single msg :
@@ -59,11 +59,11 @@ Section Top.
 
   Theorem parse_refines_rparse : forall fuel, obs_equiv (parse c fuel) (rparse c fuel).
   Proof.
-    intros fuel. unfold parse, rparse.
+    intros fuel. unfold parse, rparse, entry_name; cbn [rd rData rU rO rG rE].
     destruct (cG c) as [|r0 G0] eqn:EG.
     { cbn. repeat split; auto; try constructor. }
-    destruct (entry_name c) as [en|]; [|exact Logic.I].
     rewrite <- EG.
+    destruct (entry_of (cO c) (cG c)) as [en|]; [|exact Logic.I].
     destruct (find_rule en (cG c)) as [r|] eqn:Hf.
     2: { cbn. repeat split; auto; try constructor. }
     pose proof (find_rule_In _ _ _ Hf) as Hin.
@@ -90,16 +90,16 @@ Section Top.
       destruct Hw as (_ & _ & [_ _ F3 _ _] & _). cbn in F3.
       destruct (errs s2) as [|e0 es0] eqn:Ee; rewrite <- S5.
       + cbn. repeat split; auto.
-        f_equal. unfold no_match_error, no_match_perr. cbn [errs set_rstack popV set_vstack].
+        f_equal. unfold no_match_error, no_match_perr; cbn [rd rData rU rO rG rE]. cbn [errs set_rstack popV set_vstack].
         rewrite mf_fold_far in S7. inversion S7 as [[Hp He]].
-        unfold addErrAt. cbn. rewrite Ee. cbn. unfold ref_perr. f_equal.
-        unfold err_prefix, ref_prefix. cbn. rewrite F3. cbn. rewrite Hp, He. reflexivity.
+        unfold addErrAt. cbn. rewrite Ee. cbn. unfold ref_perr; cbn [rd rData rU rO rG rE]. f_equal.
+        unfold err_prefix, ref_prefix; cbn [rd rData rU rO rG rE]. cbn. rewrite F3. cbn. rewrite Hp, He. reflexivity.
       + cbn. repeat split; auto. rewrite Ee. reflexivity.
     - (* panic *)
       destruct Hs as [E [P1 P2 P3 P4 P5 P6]]. subst pv'.
       destruct (o_recover (cO c)); cbn.
       + repeat split; auto. f_equal. unfold addErr, addErrAt. cbn. rewrite P3. f_equal.
-        unfold ref_perr. rewrite err_prefix_ref, P6, P1. reflexivity.
+        unfold ref_perr; cbn [rd rData rU rO rG rE]. rewrite err_prefix_ref, P6, P1. reflexivity.
       + repeat split; auto.
   Qed.
 End Top.
